@@ -233,6 +233,12 @@ def _c10_tree_case(shape, text, n_ops, max_step, preemptions, root_ops):
                     else:
                         if row['state'] != 'PAUSED':
                             return
+                        if xid != wid and wid in held:
+                            # the operator paused the root and now resumes a
+                            # child: the engine resumes the parent as well;
+                            # the property does not say what should happen
+                            # (outside the claim)
+                            raise symx.PathAbort()
                         ex_.operator('resume_workflow', xid)
                         reach('resumed-' + ('root' if xid == wid
                                             else 'kid'))
